@@ -43,7 +43,7 @@ vars == <<db, now, co, started, nsweeps, hist, last, sel>>
 Rid(i) == "r" \o ToString(i)
 NoCo == [own |-> "", kind |-> "", a |-> <<>>, ph |-> "", sub |-> "", tx |-> <<>>, dt |-> 0, t0 |-> 0, ready |-> FALSE,
          res |-> <<>>, p |-> <<>>, x |-> <<>>, st |-> 0, body |-> <<>>, ct |-> 0,
-         reply |-> None, eff |-> None, snaps |-> {}, sends |-> <<>>]
+         reply |-> None, eff |-> None, snaps |-> {}, sends |-> <<>>, err |-> FALSE]
 
 Yield(c, ph, tx, t) == [c EXCEPT !.ph = ph, !.sub = "store", !.tx = tx, !.dt = t, !.ready = FALSE]
 YieldRouter(c, ph) == [c EXCEPT !.ph = ph, !.sub = "router", !.tx = <<>>, !.ready = FALSE]
@@ -275,7 +275,9 @@ RunEnqueueTasks(c, t) ==
          IN Yield(c, "update", [i \in DOMAIN all |-> cmd(all[i])], c.ct)
     [] c.ph = "update" -> Finish(c)
 
-Run(c, t) ==
+\* the store refused the transaction (the only way on a well-formed database: the bulk task insert of
+\* a completion meets an existing task id): a request answers with a store error, a sweep gives up
+RunProgram(c, t) ==
   CASE c.kind = "ReadPromise" -> RunReadPromise(c, t)
     [] c.kind \in {"CreatePromise", "CreatePromiseAndTask"} -> RunCreatePromise(c, t)
     [] c.kind = "CompletePromise" -> RunCompletePromise(c, t)
@@ -287,6 +289,10 @@ Run(c, t) ==
     [] c.kind = "TimeoutChild" -> RunTimeoutChild(c, t)
     [] c.kind = "TimeoutTasks" -> RunTimeoutTasks(c, t)
     [] c.kind = "EnqueueTasks" -> RunEnqueueTasks(c, t)
+Run(c, t) ==
+  IF c.err THEN (IF c.kind \in {"TimeoutPromises", "TimeoutChild", "TimeoutTasks", "EnqueueTasks"} THEN Finish(c)
+                 ELSE Reply(c, [status |-> STORE_ERROR]))
+  ELSE RunProgram(c, t)
 
 (***************************************************************************)
 (* The store: a transaction is applied command by command; the results are *)
@@ -332,14 +338,15 @@ CommitAllowed(c, S, S2) ==
   \/ "F14" \in Known /\ IsF14(S, c.tx)
 
 \* the core of a claim reply (the promises are read at a later instant)
-Core(c, r) == IF c.kind = "ClaimTask"
+Core(c, r) == IF c.kind = "ClaimTask" /\ "task" \in DOMAIN r
               THEN [status |-> r.status, task |-> IF IsSome(r.task) THEN Some([The(r.task) EXCEPT !.attempt = 0]) ELSE None]
               ELSE r
 \* (evaluated in the state in which the reply is made)
 ReplyAllowed(c) ==
   IF IsNone(c.reply) THEN TRUE
   ELSE LET r == Core(c, The(c.reply)) IN
-       IF IsSome(c.eff) THEN r = The(c.eff)
+       IF r.status = STORE_ERROR THEN TRUE          \* a failed request may or may not have taken effect
+       ELSE IF IsSome(c.eff) THEN r = The(c.eff)
        ELSE \/ \E s \in c.snaps : LET o == Op(c.kind, s.S, c.a, s.dt) IN o.db = s.S /\ Core(c, o.res) = r
             \/ c.snaps = {} /\ LET o == Op(c.kind, db, c.a, now) IN o.db = db /\ Core(c, o.res) = r
 
@@ -383,11 +390,12 @@ Advance(t) ==
 Commit(id) ==
   /\ id \in DOMAIN co /\ co[id].sub = "store" /\ ~ co[id].ready /\ co[id].ph # "done"
   /\ LET c == co[id]
-         S2 == ApplySeq(db, c.tx)
+         failed == SeqFails(db, c.tx)
+         S2 == IF failed THEN db ELSE ApplySeq(db, c.tx)
          isEffect == c.kind \in RequestKinds /\ S2 # db /\ SameAs(c, S2, OpAt(c, db).db)
      IN
      /\ db' = S2
-     /\ co' = [co EXCEPT ![id] = [c EXCEPT !.res = TxResults(db, c.tx), !.ready = TRUE,
+     /\ co' = [co EXCEPT ![id] = [c EXCEPT !.res = IF failed THEN <<>> ELSE TxResults(db, c.tx), !.ready = TRUE, !.err = failed,
                                            !.snaps = IF S2 = db THEN @ \cup {[S |-> db, dt |-> c.dt]} ELSE @,     \* a commit that changes nothing is a look at the database
                                            !.eff = IF isEffect THEN Some(Core(c, OpAt(c, db).res)) ELSE @]]
      /\ last' = [e |-> "commit", c |-> id, ok |-> CommitAllowed(c, db, S2),
